@@ -4,7 +4,8 @@
     to_full_tensor / _build_contraction_tree / contract_tree / permute_axes /
     perform_tree_contraction, with numpy.einsum modelled by its defining sum [einsum_sem];
     it is tied to /repo by the exact correspondence run of checks/C07.py on every run. *)
-From Qib Require Import TN.TNTreeCheck TN.TNConsistentConv Base.Inst.
+From Qib Require Import TN.TNTreeCheck TN.TNConsistentConv TN.TNGenBase Base.Inst.
+From Run Require Import GenTN.
 
 (** (a) single-shot contraction.  For every network satisfying the incidence invariant, every
     commutative ring of scalars and all tensor data: what contract_einsum (the literal port:
@@ -110,6 +111,51 @@ Proof.
   rewrite V1, V2 by assumption. reflexivity.
 Qed.
 Print Assumptions C07_tree_equals_einsum_when_checked.
+
+
+(* ================================================================== the source, regenerated *)
+(** [Run.GenTN] is regenerated on every run by gen/tn.py from symbolic_network.py: the first id of
+    an intermediate tree tensor and the bump rule of _build_contraction_tree, as_einsum's sort key
+    (virtual tensor last), the default of the min, the first-occurrence rule (pinned) and the
+    axes-map rule.  They are what the model (TNValue.as_einsum, TNTree.build_tree) uses. *)
+Local Open Scope Z_scope.
+Theorem C07_source_closed_forms_are_model :
+  (forall n, gen_tree_first_id (tensors n) = zmax0 (dkeys (tensors n)) + 1) /\
+  (forall next tid, gen_tree_bump next tid = if Z.leb next tid then tid + 1 else next) /\
+  (forall n, gen_einsum_max_tid (tensors n) = zmax0 (dkeys (tensors n))) /\
+  (forall mx t, gen_einsum_sort_key mx t = if Z.eqb t VT then mx + 1 else t) /\
+  gen_einsum_min_default = O /\
+  (forall l, gen_einsum_out l = first_occ l []) /\
+  (forall out l, gen_einsum_axes_map out l = omap (fun i => nindex i out) l).
+Proof.
+  refine (conj _ (conj _ (conj _ (conj _ (conj _ (conj _ _)))))).
+  - intros. unfold gen_tree_first_id. repeat rewrite zmaxd_0. lia.
+  - intros. unfold gen_tree_bump. cmp_bool.
+  - intros. unfold gen_einsum_max_tid. repeat rewrite zmaxd_0. reflexivity.
+  - intros. unfold gen_einsum_sort_key, VT. cmp_bool.
+  - reflexivity.
+  - intros. reflexivity.
+  - intros. reflexivity.
+Qed.
+Print Assumptions C07_source_closed_forms_are_model.
+
+(** what these closed forms are FOR: ids of intermediate tree tensors never collide with the
+    network's tensors, the bump rule only moves upwards, the virtual tensor sorts last *)
+Theorem C07_source_ids_are_fresh :
+  (forall n k, In k (dkeys (tensors n)) -> k < gen_tree_first_id (tensors n)) /\
+  (forall next tid, next <= gen_tree_bump next tid /\ tid < gen_tree_bump next tid) /\
+  (forall n t, In t (dkeys (tensors n)) -> t <> VT ->
+     gen_einsum_sort_key (gen_einsum_max_tid (tensors n)) t < gen_einsum_sort_key (gen_einsum_max_tid (tensors n)) VT).
+Proof.
+  refine (conj _ (conj _ _)).
+  - intros n k H. pose proof (zmax0_ge _ _ H). unfold gen_tree_first_id. repeat rewrite zmaxd_0. lia.
+  - intros next tid. unfold gen_tree_bump. destruct (Z.leb_spec next tid); lia.
+  - intros n t H Ht. pose proof (zmax0_ge _ _ H). unfold gen_einsum_sort_key, gen_einsum_max_tid. repeat rewrite zmaxd_0.
+    unfold VT in *. destruct (Z.eqb_spec t (-1)); [contradiction|]. cbn. lia.
+Qed.
+Print Assumptions C07_source_ids_are_fresh.
+
+Local Close Scope Z_scope.
 
 (** the hypotheses are satisfiable: hyper-bond with three legs + two open axes on one bond + a
     self-trace + an identity wire; the model contracts it and the expansion is the defining sum
